@@ -144,7 +144,9 @@ def tsan_payload_reports(job):
             # TSan's blindness to the fence-based reclamation protocols, not a missing edge for user data)
             # A harness access = cdsv::payload_* / cdsv::cs_touch, or any innermost frame whose source file is harness code (the
             # intrusive variants read and write the user's item directly in the harness).
-            hdirs = (os.path.join(VERIF, 'harness') + os.sep, os.path.join(VERIF, 'include', 'cdsv') + os.sep)
+            # (only harness/*.cpp: the item destructor's poison write in include/cdsv is ordered by the reclamation protocol, which
+            # TSan cannot follow where it uses fences)
+            hdirs = (os.path.join(VERIF, 'harness') + os.sep,)
             if len(tops) == 2 and all(('cdsv::payload_' in t or 'cdsv::cs_touch' in t or any(h in t for h in hdirs)) for t in tops):
                 payload.append('WARNING: ThreadSanitizer:' + rep[:3000])
     return total, payload
